@@ -221,6 +221,20 @@ CHECKS['C09'] = dict(
     note=TB + 'PyMatching blossom algorithm and the union-find correction radius are not proved; distances used are those certified by C17.',
     technique='Coq theorems (verified optimality checker, half-distance correction) evaluated in the kernel on real decoder output')
 
+CHECKS['C20'] = dict(
+    category='proof',
+    text=('Coq theorems: with the kitaev fallback the representation lookup is total for both pictures whenever the kitaev picture '
+          'defines the type; the offered decoders are exactly those declaring support. Kernel-evaluated on tables regenerated from '
+          'gui-config.json, the GUI dicts and allowed_codes on every run (finite domains): every (menu code, picture, stabilizer type the '
+          'class produces on the grid) has a complete drawable entry, menu names map to distinct classes, /decoder-names equals the model. '
+          'Correspondence through the Flask test client on one server object: /code-data for every menu code x deformation x picture x '
+          'menu sizes (L and coprime inside the family) field by field against the library, /decode and /new-errors against the library '
+          'decoder and noise model with the generator pinned.'),
+    design_ref='DESIGN.md section 5 C20',
+    note=TB + 'Flask, JSON serialisation and the JavaScript menu are not modelled (menu options are extracted from main.js by regex and compared). '
+         'Totality of the type lookup for lattice sizes beyond the dump grid is not proved per class.',
+    technique='Coq lookup/offering theorems evaluated in the kernel on regenerated config tables + field-by-field correspondence via Flask test client')
+
 NOT_APPLICABLE = {}
 
 PENDING = ['C02', 'C03', 'C04', 'C05', 'C06', 'C07', 'C08', 'C09', 'C10', 'C11', 'C12', 'C13', 'C14', 'C15',
